@@ -425,6 +425,14 @@ def _rw_read(e, c, a):
     return Ok(CellObj(Ref(cell.c, 0), 'guard'))
 @model('Arc::clone')
 def _arc_clone(e, c, a): return unguard_cell(a[0])
+@model('Mutex::new')
+def _mutex_new(e, c, a): return CellObj(a[0], 'mutex')
+@model('Mutex::lock')
+def _mutex_lock(e, c, a):
+    # single-threaded: the lock is always free and never poisoned
+    cell = unguard_cell(a[0])
+    while isinstance(cell, CellObj) and cell.kind in ('arc', 'data'): cell = cell.c[0]
+    return Ok(CellObj(Ref(cell.c, 0), 'guard'))
 
 # ---- Option / Result ----
 @model('Option::expect', 'Result::expect', 'Option::unwrap', 'Result::unwrap')
